@@ -36,3 +36,13 @@ long handed_local(struct S *p) {
     unknown(p);
     return out;
 }
+
+/* a C global assigned inside a loop is arbitrary at the loop head (not its value at function entry) */
+static long counter_g;
+long global_in_loop(long n) {
+    long i;
+    for (i = 0; i < n; i++) {
+        counter_g = counter_g + 2;
+    }
+    return counter_g;
+}
